@@ -44,7 +44,9 @@ func (pc *pContext) setState(state state.State) {
 }
 
 func (pc pContext) verifyCommit(chainID string, blockID types.BlockID, height int64, commit *types.Commit) error {
-	return pc.state.Validators.VerifyCommitLight(chainID, blockID, height, commit)
+	// NOTE: all signatures are verified, not just +2/3: the commit is stored as the
+	// seen commit of the block.
+	return pc.state.Validators.VerifyCommit(chainID, blockID, height, commit)
 }
 
 func (pc *pContext) saveBlock(block *types.Block, blockParts *types.PartSet, seenCommit *types.Commit) {
